@@ -230,7 +230,7 @@ def is_error_ret(e):
         f = hir_strip(v["f"])
         if f.get("k") == "path":
             r = f["path"]["res"]
-            if r["k"] == "def" and short(r.get("path", "")).endswith("Result::Err"):
+            if r["k"] == "def" and (short(r.get("path", "")).endswith("::Err") or short(r.get("ctor_of", "")).endswith("Result::Err")):
                 return True
     return False
 
